@@ -72,3 +72,37 @@ Lemma h3_one_reader_for_both_ways :
     (bs "s.responseBody", bs "=", bs "cr");
     (bs "res.Body", bs "=", bs "s.responseBody") ].
 Proof. reflexivity. Qed.
+
+(* ---------- clones ---------- *)
+
+(* what client k gets depends on client k's own settings only: two populations that agree on client k
+   (whatever the original and the other clones are set to, whoever opened which connection) *)
+Lemma clients_independent st cs1 cs2 k q ended r :
+  nth_error cs1 k = nth_error cs2 k ->
+  client_exchange st cs1 k q ended r = client_exchange st cs2 k q ended r.
+Proof. unfold client_exchange. now intros ->. Qed.
+
+Lemma client_exchange_is_respond st cs k s q ended r :
+  nth_error cs k = Some s ->
+  client_exchange st cs k q ended r = Some (respond st (cfg_under s q) (set_auto s) ended r).
+Proof. unfold client_exchange. now intros ->. Qed.
+
+(* clones sharing the original's HTTP/2 pool (NOT the code): a clone with AutoDecompression on gets a
+   deflate answer untouched over HTTP/2 while the original is off, decoded over HTTP/1 *)
+Lemma shared_pool_refuted :
+  client_exchange_shared_h2_pool H2 [s_off; s_on] 1 q_plain false r_deflate = Some r_deflate /\
+  option_map r_body (client_exchange_shared_h2_pool H1 [s_off; s_on] 1 q_plain false r_deflate) =
+    Some (Lazy Deflate (bs "dddd")) /\
+  option_map r_body (client_exchange H2 [s_off; s_on] 1 q_plain false r_deflate) =
+    Some (Lazy Deflate (bs "dddd")) /\
+  client_exchange_shared_h2_pool H2 [s_off; s_on] 1 q_plain false r_deflate <>
+  client_exchange_shared_h2_pool H2 [s_on; s_on] 1 q_plain false r_deflate.
+Proof. vm_compute. repeat split. discriminate. Qed.
+
+(* Transport.Clone builds the clone's HTTP/2 transport field by field (a composite literal: new,
+   unexported connection pool included), never by copying the original's struct *)
+Lemma clone_gets_its_own_h2_transport :
+  clone_h2_transport_assignments =
+  [ (bs "tt.t2", bs "=",
+     bs "&h2internal.Transport{Options,AllowHTTP,MaxHeaderListSize,StrictMaxConcurrentStreams,ReadIdleTimeout,PingTimeout,WriteByteTimeout,ConnectionFlow,Settings,HeaderPriority,PriorityFrames}") ].
+Proof. reflexivity. Qed.
